@@ -43,7 +43,8 @@ type Scenario struct {
 	SigLast    bool         `json:"sig_last,omitempty"`
 	Want       string       `json:"want_signed"`
 	Fault      *idp.Fault   `json:"fault,omitempty"`
-	RawMsg     *string      `json:"raw_msg,omitempty"` // send these bytes as SAMLRequest value instead of an encoded document
+	EncStyle   string       `json:"enc_style,omitempty"` // percent-encoding style of the SP: "" (upper-case hex, + for space), lower, pct20, lower+pct20, all
+	RawMsg     *string      `json:"raw_msg,omitempty"`   // send these bytes as SAMLRequest value instead of an encoded document
 	ExtraQuery []idp.Param  `json:"extra_query,omitempty"`
 	ExtraBody  []idp.Param  `json:"extra_body,omitempty"`
 	// what the simulated SP really signed (for the C05 oracle)
@@ -86,6 +87,7 @@ func keyFor(name string) *idp.KeyPair {
 
 // Build turns the scenario into an HTTP request.
 func (s *Scenario) Build() (*Built, error) {
+	q := func(k, v string) idp.Param { return idp.Param{K: k, V: EscapeStyle(s.EncStyle, v)} }
 	doc := s.Req.XML(s.Style)
 	signedDoc := false
 	if s.Sign != "" && s.Transport == "post" || strings.HasPrefix(s.Mut, "move-to-redirect") {
@@ -149,12 +151,12 @@ func (s *Scenario) Build() (*Built, error) {
 		msg = *s.RawMsg
 	}
 	var query, body []idp.Param
-	params := []idp.Param{idp.Q("SAMLRequest", msg)}
+	params := []idp.Param{q("SAMLRequest", msg)}
 	if s.Relay != "" {
-		params = append(params, idp.Q("RelayState", s.Relay))
+		params = append(params, q("RelayState", s.Relay))
 	}
 	if s.Encoding != nil {
-		params = append(params, idp.Q("SAMLEncoding", *s.Encoding))
+		params = append(params, q("SAMLEncoding", *s.Encoding))
 	}
 	detached := s.Sign != "" && (s.Transport == "redirect" && !strings.HasPrefix(s.Mut, "move-to-redirect") || s.Mut == "move-to-post") || strings.HasPrefix(s.Mut, "post-detached-sig")
 	if strings.HasPrefix(s.Mut, "post-detached-sig") && s.Sign == "" {
@@ -165,7 +167,7 @@ func (s *Scenario) Build() (*Built, error) {
 		if s.Mut == "swap-relay" {
 			signRelay = s.Relay + "-signed"
 		}
-		octets := idp.RedirectOctets("SAMLRequest", msg, signRelay, s.Sign, url.QueryEscape)
+		octets := idp.RedirectOctets("SAMLRequest", msg, signRelay, s.Sign, func(v string) string { return EscapeStyle(s.EncStyle, v) })
 		sig := idp.SignRedirect(keyFor(s.SignKey).Key, s.Sign, octets)
 		if s.SignKey != "other" {
 			s.SignedTriples = append(s.SignedTriples, [4]string{msg, signRelay, s.Sign, sig})
@@ -185,17 +187,17 @@ func (s *Scenario) Build() (*Built, error) {
 		case "bitflip-signed-msg":
 			// change the message after signing: re-encode a different document
 			alt := strings.Replace(string(doc), `ID="`, `ID="y`, 1)
-			params[0] = idp.Q("SAMLRequest", idp.DeflateB64([]byte(alt)))
+			params[0] = q("SAMLRequest", idp.DeflateB64([]byte(alt)))
 		case "strip-sig":
 			sig = ""
 		case "sigalg-only":
 			sig = ""
 		}
 		if s.Mut != "strip-sig" && s.Mut != "sig-only" {
-			params = append(params, idp.Q("SigAlg", sendAlg))
+			params = append(params, q("SigAlg", sendAlg))
 		}
 		if sig != "" {
-			params = append(params, idp.Q("Signature", sig))
+			params = append(params, q("Signature", sig))
 		}
 	}
 	method := http.MethodGet
@@ -211,13 +213,13 @@ func (s *Scenario) Build() (*Built, error) {
 		method = http.MethodPost
 		query = params
 		forged := strings.Replace(string(doc), `ID="`, `ID="forged`, 1)
-		body = []idp.Param{idp.Q("SAMLRequest", idp.DeflateB64([]byte(forged))), idp.Q("RelayState", "forged-state")}
+		body = []idp.Param{q("SAMLRequest", idp.DeflateB64([]byte(forged))), q("RelayState", "forged-state")}
 	}
 	if s.Mut == "param-split" {
 		// message in the body, a decoy SAMLRequest in the query (or the reverse for GET)
 		method = http.MethodPost
 		body = params
-		query = []idp.Param{idp.Q("SAMLRequest", "ZGVjb3k=")}
+		query = []idp.Param{q("SAMLRequest", "ZGVjb3k=")}
 	}
 	query = append(query, s.ExtraQuery...)
 	body = append(body, s.ExtraBody...)
@@ -351,7 +353,7 @@ func coqDec(d *samlp.AuthnRequestType) string {
 		if d.Signature.KeyInfo != nil {
 			var cs []string
 			for _, x := range d.Signature.KeyInfo.X509Data {
-				cs = append(cs, x.X509Certificate)
+				cs = append(cs, idp.CertText(x.X509Certificate))
 			}
 			ki = "(Some " + coqgen.BytesList(cs) + ")"
 		}
@@ -370,7 +372,7 @@ func CoqSP(sp *serviceprovider.ServiceProvider) string {
 	for _, kd := range d.KeyDescriptor {
 		var cs []string
 		for _, x := range kd.KeyInfo.X509Data {
-			cs = append(cs, x.X509Certificate)
+			cs = append(cs, idp.CertText(x.X509Certificate))
 		}
 		kds = append(kds, coqgen.BytesList(cs))
 	}
@@ -397,4 +399,32 @@ func coqTimes(a *Abstract) string {
 		}
 	}
 	return coqgen.List(es)
+}
+
+// EscapeStyle percent-encodes a parameter value in one of the styles RFC 3986 / the HTML form encoding allow
+func EscapeStyle(style, v string) string {
+	e := url.QueryEscape(v)
+	if strings.Contains(style, "all") {
+		var sb strings.Builder
+		for i := 0; i < len(v); i++ {
+			fmt.Fprintf(&sb, "%%%02X", v[i])
+		}
+		e = sb.String()
+	}
+	if strings.Contains(style, "pct20") {
+		e = strings.ReplaceAll(e, "+", "%20")
+	}
+	if strings.Contains(style, "lower") {
+		var sb strings.Builder
+		for i := 0; i < len(e); i++ {
+			if e[i] == '%' && i+2 < len(e) {
+				sb.WriteString("%" + strings.ToLower(e[i+1:i+3]))
+				i += 2
+			} else {
+				sb.WriteByte(e[i])
+			}
+		}
+		e = sb.String()
+	}
+	return e
 }
